@@ -1128,6 +1128,11 @@ def task_rows(ctx, n, part, parts, epi=True):
 
 
 def tasks(tier):
+    from .. import depth
+    return _tasks(tier) + [("little-stack", depth.task, dict(prop=PROPERTY))]
+
+
+def _tasks(tier):
     if tier == "quick":
         out = [("rows-%d" % k, task_rows, dict(n=60, part=k, parts=4)) for k in range(4)]
         out.append(("samples", task_samples, dict(n=400)))
@@ -1157,6 +1162,9 @@ def tasks(tier):
 
 
 def replay(ctx, case):
+    if isinstance(case, dict) and case.get("kind") == "little-stack":
+        from .. import depth
+        return depth.check(ctx, case)
     kind = case.get("kind")
     if case.get("route") and not _STATE:
         env(case["route"])          # replays run in a fresh process: take the same initialisation route
